@@ -666,3 +666,56 @@ def rxerror_immutable(P, E, H=None):
     if n < 4:
         r.error("T-rxerror: only %d RxError methods found (floor 4)" % n)
     return r
+
+
+# --------------------------------------------------------------------------- amb mirrors its winner (C03)
+
+def amb_mirror(P, E, H):
+    """amb mirrors ONE input: when the winner completes the whole subscription completes, whatever
+    the losers do.  Structural condition: amb's complete-handler never uses the counting
+    sink_complete (which waits for every registered input) and reaches sink_complete_force on its
+    winner path."""
+    r = RuleResult("D-amb-mirror", "amb's winner completion ends the subscription (sink_complete_force, not the counting sink_complete)")
+    ts = [t for t in H.triples if t["root"] == "operators::amb::Amb"]
+    if not ts:
+        r.error("anchor missing: amb handler triple")
+    for t in ts:
+        hb = t["handlers"].get("C")
+        if hb is None:
+            r.error("amb complete handler is not a closure")
+            continue
+        counting = [c for c in hb.calls if atom(c) == "sink_complete"]
+        force = [c for c in hb.calls if atom(c) == "sink_complete_force"]
+        r.instance(H.key(hb) + ("winner completion",), True, "sink_complete %s force %s" % ([c.bb for c in counting], [c.bb for c in force]))
+        if counting or not force:
+            r.violate(H.key(hb) + ("winner completion waits for the losers",),
+                      "amb completes through the counting sink_complete(serial): downstream completes only when every input is "
+                      "gone, so a silent loser (never(), an idle subject) keeps the subscription open forever after the winner "
+                      "completed", body=hb, line=(counting[0].line if counting else None))
+    return r
+
+
+def combine_latest_not_zip(P, E, H):
+    """combine_latest emits, on every item of any input, the LATEST value of each input; zip pairs the
+    i-th items through FIFO queues.  An implementation of combine_latest that delegates to Zip
+    therefore computes another function.  Structural condition: nothing in impl CombineLatest
+    builds or runs a Zip."""
+    r = RuleResult("D-combine-latest", "combine_latest is not implemented by zip's FIFO pairing")
+    n = 0
+    hits = []
+    for b in P.bodies.values():
+        if b.id in P.absorbed or H.type_root(b) != "operators::combine_latest::CombineLatest":
+            continue
+        n += 1
+        for c in b.calls:
+            if c.path.startswith("operators::zip::Zip::") or (c.impl_self and "operators::zip::Zip" in c.impl_self.get("s", "")):
+                hits.append((b, c))
+    r.instance(("operators::combine_latest::CombineLatest", "delegation"), True, "bodies %d, calls into Zip %d" % (n, len(hits)))
+    if n == 0:
+        r.error("anchor missing: impl CombineLatest")
+    if hits:
+        b, c = hits[0]
+        r.violate(("operators::combine_latest::CombineLatest", "delegates to zip"),
+                  "combine_latest is built on Zip (%s): it pairs the i-th items instead of combining the latest values "
+                  "(a:1,2,3 then b:10,20 gives [1,10],[2,20] instead of [3,10],[3,20])" % c.path, body=b, line=c.line)
+    return r
